@@ -2,6 +2,7 @@ SPECIFICATION Spec
 CONSTANTS
   Backend = "badger"
   MetaAlways = TRUE
+  PointMeta = TRUE
   Gs = {1,2,3}
   IdSet = {1, 2}
   Vals = {1, 2}
